@@ -22,10 +22,16 @@ const (
 	OpReleaseValue
 	OpAllocSpecific
 	OpSetAlloc
+	// OpDecline: the holder reports its value unusable (DHCPv6 Decline); the assignment ends, the value is quarantined.
+	OpDecline
+	// OpAllocAlt / OpReleaseAlt: the same request through the implementation's second entry point
+	// (peer HTTP API, AllocateWithMAC, AllocateWithOptions), see pools.AltEntry.
+	OpAllocAlt
+	OpReleaseAlt
 	numKinds
 )
 
-var kindNames = [...]string{"alloc", "release", "renew", "advance", "reload", "remoteSet", "remoteDel", "releaseValue", "allocSpecific", "setAlloc"}
+var kindNames = [...]string{"alloc", "release", "renew", "advance", "reload", "remoteSet", "remoteDel", "releaseValue", "allocSpecific", "setAlloc", "decline", "allocAlt", "releaseAlt"}
 
 func (k Kind) String() string { return kindNames[k] }
 
